@@ -59,14 +59,8 @@ mod date_format {
             return Err(serde::de::Error::custom("Date must be 6 digits (YYMMDD)"));
         }
 
-        let year: i32 = s[0..2].parse::<i32>().map_err(serde::de::Error::custom)?;
-        let year = if year >= 80 { 1900 + year } else { 2000 + year };
-        let month: u32 = s[2..4].parse().map_err(serde::de::Error::custom)?;
-        let day: u32 = s[4..6].parse().map_err(serde::de::Error::custom)?;
-
-        NaiveDate::from_ymd_opt(year, month, day).ok_or_else(|| {
-            serde::de::Error::custom(format!("Invalid date: {}/{}/{}", year, month, day))
-        })
+        // same YY pivot as the MT representation (00-49 -> 20YY, 50-99 -> 19YY)
+        crate::fields::swift_utils::parse_date_yymmdd(&s).map_err(serde::de::Error::custom)
     }
 }
 
